@@ -583,6 +583,30 @@ def run(ctx):
                            "rect": max(max(c.d[:2]) for c in cases if c.op in OPS2),
                            "product": max(max(c.d) for c in cases if c.op in OPS3)}
     ctx.cov["cells_compared"] = sum(sizes(c.op, c.d)[2] for c in cases)
+    # which case splits of the model (= of the C) the generated shapes drive
+    rect = [c for c in cases if c.op in ("eye2", "tri2", "triL2", "triU2")]
+    prod = [c for c in cases if c.op in OPS3]
+    inner = lambda c: {"mulmm": c.d[1], "mulTm": c.d[0], "mulmT": c.d[2], "mulTT": c.d[1]}[c.op]
+    ctx.cov["model_case_splits"] = {
+        "rect: A_MIN picks m, second block skipped (m<=n)": sum(1 for c in rect if c.d[0] <= c.d[1]),
+        "rect: A_MIN picks n, second block runs rows n..m-1 (m>n)": sum(1 for c in rect if c.d[0] > c.d[1]),
+        "row body: first inner loop empty (row 0) and last row (trailing loop empty)": sum(1 for c in cases if c.op not in OPS3 and c.d[0] >= 1),
+        "diag2: min(m,n)=m / =n": [sum(1 for c in cases if c.op == "diag2" and c.d[0] <= c.d[1]),
+                                   sum(1 for c in cases if c.op == "diag2" and c.d[0] > c.d[1])],
+        "product: inner dimension 0 (accumulation loops never entered; Z = z keeps z_)": sum(1 for c in prod if inner(c) == 0),
+        "product: inner dimension 1": sum(1 for c in prod if inner(c) == 1),
+        "product: inner dimension >= 2, row != col (strides distinguishable)": sum(1 for c in prod if inner(c) >= 2 and len(set(c.d)) == 3),
+        "T1: n <= 1 (no exchange) / n >= 2": [sum(1 for c in cases if c.op == "T1" and c.d[0] <= 1),
+                                              sum(1 for c in cases if c.op == "T1" and c.d[0] >= 2)],
+    }
+    ctx.cov["trusted_base"].extend([
+        "extraction with ExtrOcamlBasic only (nat/Z/positive stay inductives) + harness/C09/mdrv.ml (parsing/printing)",
+        "harness/C09/drv.c, gcc, ASan/UBSan, canary cells (48 on each side of the result array), fetestexcept",
+        "checks/C09.py reference definitions (exact Python integers) used as search oracle and evaluated on every case",
+        "model abstractions: a_uint/a_size as nat (no counter exceeds max(m,n); products index existing arrays); "
+        "__restrict inputs are immutable lists; identical row bodies of the square and rectangular variants share one model definition",
+        "same Gallina term instantiated at Z (tie), PrimFloat (bit-exact tie) and arbitrary T (theorems)",
+    ])
     ctx.cov["model_write_counts_checked"] = len(cases) - len(nw_bad)
     for c in (cases[len(cases) // 7], cases[len(cases) // 2], cases[-1]):
         i = cases.index(c)
